@@ -118,6 +118,10 @@ func (t *T) String() string {
 		return t.str
 	}
 	var s string
+	if t.Named != "" && t.K == KStruct {
+		t.str = t.Named
+		return t.str
+	}
 	switch t.K {
 	case KPtr:
 		s = "*" + t.Elem.String()
@@ -260,18 +264,26 @@ func (t *T) Depth() int {
 }
 
 // Contains reports whether any node of the type satisfies pred.
-func (t *T) Contains(pred func(*T) bool) bool {
+func (t *T) Contains(pred func(*T) bool) bool { return t.contains(pred, map[*T]bool{}) }
+
+func (t *T) contains(pred func(*T) bool, seen map[*T]bool) bool {
+	if seen[t] {
+		return false
+	}
+	if t.Named != "" {
+		seen[t] = true
+	}
 	if pred(t) {
 		return true
 	}
 	switch t.K {
 	case KPtr, KSlice:
-		return t.Elem.Contains(pred)
+		return t.Elem.contains(pred, seen)
 	case KMap:
-		return t.Key.Contains(pred) || t.Elem.Contains(pred)
+		return t.Key.contains(pred, seen) || t.Elem.contains(pred, seen)
 	case KStruct:
 		for _, f := range t.Fields {
-			if f.T.Contains(pred) {
+			if f.T.contains(pred, seen) {
 				return true
 			}
 		}
